@@ -33,17 +33,43 @@ const (
 var dNames = []string{"none", "generator-panic", "mapper-panic", "reducer-panic", "mapper-cancel", "mapper-cancel-nil", "reducer-cancel", "ctx-cancel", "ctx-deadline", "stall"}
 
 type plan struct {
-	variant  int // 0 MapReduce 1 MapReduceVoid 2 MapReduceChan 3 ForEach 4 Finish 5 FinishVoid
-	items    int
-	workers  int
-	fanout   []int // writes per item
-	redKind  int   // 0 sum+write once at end, 1 write nothing, 2 write early (after first value) then keep consuming, 3 write twice
-	dist     int
-	distAt   int           // invocation index (item index for generator/mapper, consumed count for reducer)
-	distDur  time.Duration // ctx instant / stall duration
-	workDur  []time.Duration
-	genDur   time.Duration
-	useCtx   bool
+	variant int // 0 MapReduce 1 MapReduceVoid 2 MapReduceChan 3 ForEach 4 Finish 5 FinishVoid
+	items   int
+	workers int
+	fanout  []int // writes per item
+	redKind int   // 0 sum+write once at end, 1 write nothing, 2 write early (after first value) then keep consuming, 3 write twice
+	dist    int
+	distAt  int           // invocation index (item index for generator/mapper, consumed count for reducer)
+	distDur time.Duration // ctx instant / stall duration
+	workDur []time.Duration
+	genDur  time.Duration
+	useCtx  bool
+	// a second, independent canceller (the statement quantifies over every choice of which
+	// invocations cancel): 0 none, 1 a mapper invocation, 2 the reducer
+	dist2    int
+	dist2At  int
+	errKind  int  // dynamic type of the error passed by the first canceller
+	errKind2 int  // ... by the second canceller
+	fwdCtx   bool // mappers forward ctx.Err() through cancel once they see the context ended
+}
+
+// customErr is a cancel error of a user-defined type.
+type customErr struct{ tag string }
+
+func (e customErr) Error() string { return "custom cancel error " + e.tag }
+
+var errBase = errors.New("base error")
+
+// mkErr builds a cancel error; the three kinds have three different dynamic types.
+func mkErr(kind int, tag string) error {
+	switch kind {
+	case 1:
+		return fmt.Errorf("cancel-err-%s: %w", tag, errBase)
+	case 2:
+		return customErr{tag}
+	default:
+		return fmt.Errorf("cancel-err-%s", tag)
+	}
 }
 
 type world struct {
@@ -51,29 +77,29 @@ type world struct {
 	p   *plan
 	clk int
 
-	generated []int
-	mapped    map[int]int
-	written   []int // values written by mappers (accepted or not is unknown)
-	reduced   []int
-	inMapper  int
-	maxIn     int
+	generated  []int
+	mapped     map[int]int
+	written    []int // values written by mappers (accepted or not is unknown)
+	reduced    []int
+	inMapper   int
+	maxIn      int
 	userActive int
 
-	userPanics map[string]bool
-	cancelErrs []error
-	cancelNil  bool
-	cancelInvokedAt []time.Duration // virtual instants at which cancel was invoked
-	cancelReturned  []int           // logical clock when a cancel call returned
-	redWriteStartClk int
-	redWriteStartAt  time.Duration
-	redWrites        int
+	userPanics        map[string]bool
+	cancelErrs        []error
+	cancelNil         bool
+	cancelInvokedAt   []time.Duration // virtual instants at which cancel was invoked
+	cancelReturned    []int           // logical clock when a cancel call returned
+	redWriteStartClk  int
+	redWriteStartAt   time.Duration
+	redWrites         int
 	lastWriteStartClk int
 	lastWriteStartAt  time.Duration
-	redWriteReturned int // writes that returned normally (a write that panicked inside the library does not)
-	redOutput        int
-	redWroteVal      bool
-	ctxEndedAt       time.Duration
-	ctxEnded         bool
+	redWriteReturned  int // writes that returned normally (a write that panicked inside the library does not)
+	redOutput         int
+	redWroteVal       bool
+	ctxEndedAt        time.Duration
+	ctxEnded          bool
 }
 
 func (w *world) tick() int { w.clk++; return w.clk }
@@ -151,6 +177,14 @@ func drawPlan(t *simrt.Tape, tier string) *plan {
 		p.distDur = []time.Duration{0, time.Millisecond, 10 * time.Millisecond, time.Second, 5 * time.Second}[t.Intn(5)]
 	}
 	p.useCtx = p.dist == dCtxCancel || p.dist == dCtxDeadline || t.Chance(1, 5)
+	if p.dist != dNone && t.Chance(1, 3) {
+		p.dist2 = 1 + t.Intn(2)
+		p.dist2At = t.Intn(p.items + 1)
+		p.errKind, p.errKind2 = t.Intn(3), t.Intn(3)
+	}
+	if p.useCtx && t.Chance(1, 3) {
+		p.fwdCtx = true
+	}
 	return p
 }
 
@@ -234,13 +268,23 @@ func body(r *simrt.Run, tier string) {
 			case dMapPanic:
 				w.userPanic("mapper")
 			case dMapCancel:
-				w.doCancel(cancel, fmt.Errorf("cancel-err-mapper-%d", inv))
+				w.doCancel(cancel, mkErr(p.errKind, fmt.Sprintf("mapper-%d", inv)))
 			case dMapCancelNil:
 				w.doCancel(cancel, nil)
 			case dStall:
 				if p.distAt%3 == 1 {
 					r.Sleep(p.distDur)
 				}
+			}
+		}
+		if p.dist2 == 1 && inv == p.dist2At {
+			r.Probe("second-canceller")
+			w.doCancel(cancel, mkErr(p.errKind2, fmt.Sprintf("mapper2-%d", inv)))
+		}
+		if p.fwdCtx {
+			if e := ctx.Err(); e != nil {
+				r.Probe("mapper-forwards-ctx-err")
+				w.doCancel(cancel, e)
 			}
 		}
 		for k := 0; k < p.fanout[item]; k++ {
@@ -271,12 +315,16 @@ func body(r *simrt.Run, tier string) {
 				case dRedPanic:
 					w.userPanic("reducer")
 				case dRedCancel:
-					w.doCancel(cancel, fmt.Errorf("cancel-err-reducer-%d", n))
+					w.doCancel(cancel, mkErr(p.errKind, fmt.Sprintf("reducer-%d", n)))
 				case dStall:
 					if p.distAt%3 == 2 {
 						r.Sleep(p.distDur)
 					}
 				}
+			}
+			if p.dist2 == 2 && n == p.dist2At {
+				r.Probe("second-canceller")
+				w.doCancel(cancel, mkErr(p.errKind2, fmt.Sprintf("reducer2-%d", n)))
 			}
 		}
 		check()
